@@ -17,7 +17,7 @@ from ..common import Skip, brief
 ID = "C14"
 CASES = {"quick": 3200, "thorough": 36000}
 FLOOR = {"quick": 1600, "thorough": 20000}
-FLOOR_COUNTERS = {"quick": {"fits_through_fit_transform": 300, "configured_not_by_constructor": 300, "non_default_containers": 300, "fits_judged": 3500, "nested_pairs": 1200, "new_data_calls": 3000, "y1d_cases": 300, "default_n_components_fits": 100, "estimators_with_a_past": 500, "arpack_fits": 200}, "thorough": {"fits_through_fit_transform": 4000, "configured_not_by_constructor": 4000, "non_default_containers": 4000, "fits_judged": 45000, "nested_pairs": 15000, "new_data_calls": 40000, "y1d_cases": 4000, "default_n_components_fits": 1200, "estimators_with_a_past": 6000, "arpack_fits": 2500}}
+FLOOR_COUNTERS = {"quick": {"more_than_4096_rows": 15, "caller_buffers_overwritten_after_fit": 300, "fits_through_fit_transform": 300, "configured_not_by_constructor": 300, "non_default_containers": 300, "fits_judged": 3500, "nested_pairs": 1200, "new_data_calls": 3000, "y1d_cases": 300, "default_n_components_fits": 100, "estimators_with_a_past": 500, "arpack_fits": 200}, "thorough": {"more_than_4096_rows": 200, "caller_buffers_overwritten_after_fit": 4000, "fits_through_fit_transform": 4000, "configured_not_by_constructor": 4000, "non_default_containers": 4000, "fits_judged": 45000, "nested_pairs": 15000, "new_data_calls": 40000, "y1d_cases": 4000, "default_n_components_fits": 1200, "estimators_with_a_past": 6000, "arpack_fits": 2500}}
 RULE = (
     "case = centred X, Y (1-D and 2-D), mixing in (0,1], space in {feature, sample}, regressor in the admissible set, "
     "k in [1, rank]; the fit for k and, when k+1 <= rank, for k+1 (full solver) are judged: projector algebra on training "
@@ -32,13 +32,14 @@ ASSUMPTIONS = [
 
 
 def gen(rng, tier, index):
-    kind, X, Y = pc.data(rng, tier)
+    kind, X, Y = pc.data(rng, tier, kinds=("tall",)) if index % 40 == 7 else pc.data(rng, tier)
     reg = pc.gen_regressor(rng, X, Y)
     rank = int(np.linalg.matrix_rank(X))
     k = int(rng.integers(1, max(1, rank) + 1))
     nz = int(rng.integers(1, 9))
     return {
         "routes": pc.routes(rng),
+        "many_rows": bool(index % 40 == 7),
         "X": X,
         "Y": Y,
         "kind": kind,
@@ -133,12 +134,16 @@ def run(case, j):
     if two:
         e1, e2 = ests[k], ests[k + 1]
         T1, T2 = e1.transform(X), e2.transform(X)
-        j.close("components for k are the first k of those for k+1", T1, T2[:, :k], tol * sT * 10)
-        j.close("pxt_ nested", e1.pxt_, e2.pxt_[:, :k], tol * max(float(np.abs(e2.pxt_).max()), 1e-300) * 10)
+        sg = np.sign((np.asarray(T1) * np.asarray(T2)[:, :k]).sum(axis=0))
+        sg[sg == 0] = 1.0  # eigenvectors are defined up to sign; two fits reached through different routes may differ in it
+        j.close("components for k are the first k of those for k+1 (up to sign)", T1, np.asarray(T2)[:, :k] * sg, tol * sT * 10)
+        j.close("pxt_ nested (up to sign)", e1.pxt_, e2.pxt_[:, :k] * sg, tol * max(float(np.abs(e2.pxt_).max()), 1e-300) * 10)
         l1, l2 = _losses(e1, X, Yfit), _losses(e2, X, Yfit)
         j.ok("training reconstruction loss does not increase with k", l2[0] <= l1[0] + 1e-9, (l1, l2))
         j.ok("training regression loss does not increase with k", l2[1] <= l1[1] + 1e-9 * max(1.0, l1[1]), (l1, l2))
         j.note("nested_pairs")
+    if case.get("many_rows") and not case.get("defaults"):
+        pc.many_rows_relation(j, X, Y, reg, a, k)
     j.nontrivial = two
     e = ests[k]
     j.sample = {
